@@ -44,7 +44,11 @@ LEVEL_TEXT = (
     "C09_remove_spec (exact), C09_fuel_enough; C09_session_no_hidden_state: a session (any sequence of cd / mkdir / upload / "
     "remove on one client) is the fold of the single operations over (server-side cwd, remote tree), each operation's effect "
     "being the documented function of that pair and its arguments whatever preceded it. C09_source_obligations ties the model's upload form and the path plumbing "
-    "to client.py (regenerated each run; the pre-fix form of upload computes false and any third form fails closed). "
+    "to client.py (regenerated each run; the pre-fix form of upload computes false and any third form fails closed; the "
+    "worklists of the recursive lister and of upload are created without a bound: lister_queue_unbounded, upload_queue_unbounded). "
+    "C09_list_worklist_any_length: from any number of pending directories the lister returns every entry below the current and "
+    "below every pending directory exactly once (nothing queued is dropped); C09_list_every_width: the directory with n "
+    "sub-directories is listed completely (2n entries) for every n. "
     "C09_hist_* are historical statements about the pre-fix upload (what a revert would do). The model is hand-written; "
     "its tie to the code is a bounded-exhaustive wire-level correspondence (all tree shapes to depth 3 / fan-out 2 x "
     "destinations x write_into x cwd, MLSD and LIST-fallback servers, memory and disk backends on both sides)."
@@ -344,7 +348,38 @@ NAME_SCHEMES = [
 ]
 
 
+def wide_tree(spec):
+    """WIDTH (the number of directories pending at once in a breadth-first walk), the dimension the narrow shapes above
+    lack.  'W<n>': one directory with n sub-directories each holding one file (n directories pending at once), plus a
+    file and an empty directory next to them; 'G<a>x<b>': a grid, a directories each with b sub-directories each
+    holding one file (up to a*b pending at once: the first level is still queued while the second is appended)"""
+    if spec[0] == "W":
+        n = int(spec[1:])
+        out = {"d%03d" % i: {"f": ("<d%03d>" % i).encode()} for i in range(n)}
+        out["top"] = b"T"
+        out["void"] = {}
+        return out
+    a, b = (int(x) for x in spec[1:].split("x"))
+    return {"g%02d" % i: {"h%02d" % j: {"leaf": ("<%d.%d>" % (i, j)).encode()} for j in range(b)} for i in range(a)}
+
+
+def is_wide(shape):
+    return isinstance(shape, str) and shape[0] in "WG"
+
+
+def max_pending(t):
+    """largest number of directories waiting at once in a breadth-first walk of t (FIFO queue, children appended)"""
+    queue, best = [t], 0
+    while queue:
+        cur = queue.pop(0)
+        queue += [c for c in cur.values() if isinstance(c, dict)]
+        best = max(best, len(queue))
+    return best
+
+
 def build(shape, scheme, level=0, path="foo"):
+    if is_wide(shape):
+        return wide_tree(shape)
     if shape == "E":
         return b""
     if shape == "F":
@@ -440,6 +475,45 @@ def make_cases(ctx):
     return cases
 
 
+def wide_cases(ctx):
+    """wide trees (hundreds of directories pending at once), deterministic, in-memory on both sides.
+    MLSD server: the session uploads the wide tree, lists recursively, downloads and removes a path that contains it
+    (pick 0 / 1 = the largest directories, relative / absolute arguments).
+    LIST-fallback server: there every stat() is a LIST of the parent directory, so an upload / download / remove of a
+    directory with n children costs n listings of n lines; in the quick tier the wide tree is planted on the server
+    (`rwide`), the session uploads a small tree, lists the wide tree recursively (one LIST per directory) and downloads /
+    removes small paths (`paths`); the thorough tier runs all four operations on the wide tree against that server too."""
+    small = ("F", "D")
+    rows = [
+        # shape, dst, write_into, cwd, fallback, pick, lold, rwide, paths
+        ("W300", "x", False, "/w", False, 0, None, None, None),
+        ("G20x20", "/x/y", True, "/w", False, 1, "mixed", None, None),
+        (small, "x", False, "/wr", True, 0, None, [["W300", ["wr"]]], ["", "/keep", "x"]),
+        (small, "x/y", True, "/", True, 1, "longer", [["G20x20", ["wr", "g"]]], ["/wr/g", "w/keep", "/x"]),
+    ]
+    if ctx.tier == "thorough":
+        rows += [
+            ("W1100", "x", True, "/w", False, 1, None, None, None),
+            ("G34x34", "x/y", False, "/", False, 0, "shorter", None, None),
+            ("G6x70", "/x/y", True, "/w", False, 1, "equal", None, None),
+            ("W300", "x/y", True, "/", True, 1, "longer", None, None),
+            ("G20x20", "x", False, "/", True, 0, None, None, None),
+            ("W300", "x", False, "/", False, 1, "empty", None, None),
+            (small, "", False, "/w", True, 0, None, [["W1100", ["wr"]], ["G34x34", ["w", "g"]]], ["/", "/keep", "foo"]),
+        ]
+    out = []
+    for k, (shape, dst, wi, cwd, fb, pick, lold, rwide, paths) in enumerate(rows):
+        disk = k == 9
+        case = dict(shape=shape, scheme=0, dst=dst, wi=wi, cwd=cwd, bs=[8192, 4][k % 2], fallback=fb, sdisk=disk,
+                    cdisk=disk, merge=False, src_abs=k % 2 == 1, lcwd=["/", "/lw"][k % 2], ldst=["x", "x/y"][k % 2],
+                    lwi=k % 2 == 1, lold=lold, pick=pick, wide=True)
+        if rwide:
+            case["rwide"] = rwide
+            case["paths"] = paths
+        out.append(case)
+    return out
+
+
 def remote_for(case, src):
     remote = clone(BYSTANDERS)
     if case["merge"]:
@@ -447,6 +521,8 @@ def remote_for(case, src):
         dst2 = str(pathlib.PurePosixPath(case["dst"]) / ("" if case["wi"] else "foo"))
         remote = graft_oracle(remote, resolve(cwdp, dst2), old_version(src))
         remote = graft_oracle(remote, ["x", "old"], b"old")
+    for spec, at in case.get("rwide") or []:
+        remote = graft_oracle(remote, list(at), wide_tree(spec))
     return remote
 
 
@@ -458,6 +534,8 @@ def exc_name(e):
 
 def choose_paths(case, t1, cwdp):
     """paths for list / download / remove, chosen from what is really on the server now"""
+    if case.get("paths"):
+        return tuple(case["paths"])
     dirs = [((), t1)] + [(p, sub(t1, p)) for p, d in entries_oracle(t1, ()) if d]
     dirs.sort(key=lambda pd: (-size(pd[1]), pd[0]))
     files = [p for p, d in entries_oracle(t1, ()) if not d]
@@ -484,8 +562,10 @@ def choose_paths(case, t1, cwdp):
     return lst, dl, rm
 
 
-def run_case(case, src, remote, tmp, wall_timeout=60):
+def run_case(case, src, remote, tmp, wall_timeout=None):
     """returns a dict of everything observed on the real client/server"""
+    if wall_timeout is None:
+        wall_timeout = 60 + (size(src) + size(remote)) // 2
     cwdp = [p for p in case["cwd"].split("/") if p]
     lcwdp = [p for p in case["lcwd"].split("/") if p]
     local0 = {"lkeep": {"l": b"L"}}
@@ -523,6 +603,9 @@ def run_case(case, src, remote, tmp, wall_timeout=60):
         else:
             client = CountingClient(path_io_factory=functools.partial(aioftp.MemoryPathIO, cwd=case["lcwd"]))
             client.path_io.fs = mem_state(local0)
+        # the bound on the number of commands (a walk that does not end) grows with the tree: a terminating session needs
+        # fewer than 60 commands per node (LIST-fallback: MLST refused, MLSD refused, EPSV, LIST for every stat)
+        client.LIMIT = CountingClient.LIMIT + (60 * (size(src) + size(remote)) if case.get("wide") else 0)
         await client.connect("127.0.0.1", 2121)
         await client.login()
         if case["cwd"] != "/":
@@ -670,7 +753,7 @@ def check_cases(ctx, cases, tmp, use_model=True):
     for i, (case, src, remote, obs) in enumerate(observed):
         if use_model:
             m_up, m_fixed, m_graft, m_list, m_dl, m_rm = outs[6 * i : 6 * i + 6]
-        if use_model and i % 40 == 0 and len(xcheck) < 60:
+        if use_model and i % 40 == 0 and len(xcheck) < 60 and not case.get("wide"):
             xcheck += [(fn, a, o) for (fn, a), o in zip(jobs[6 * i : 6 * i + 6], outs[6 * i : 6 * i + 6])]
         cwdp = [p for p in case["cwd"].split("/") if p]
         lcwdp = [p for p in case["lcwd"].split("/") if p]
@@ -727,6 +810,9 @@ def check_cases(ctx, cases, tmp, use_model=True):
             ctx.disagree("list", {**tag, "path": lst, "tree": show(t1)}, ml, obs["list"])
         truth = sorted((str(pathlib.PurePosixPath(lst).joinpath(*p)), "dir" if d else "file")
                        for p, d in entries_oracle(root, ()))
+        mp = max_pending(root) if isinstance(root, dict) else 0
+        ctx.count("recursive list: width of the listed subtree (directories pending at once, breadth-first)="
+                  + (str(mp) if mp <= 4 else "5-256" if mp <= 256 else "257-512" if mp <= 512 else ">512"))
         if obs["list"] != truth:
             ctx.violation("recursive list is not exactly the entries of the subtree",
                           replay_payload(case, "c09-list-mismatch", path=lst, tree=show(t1), got=obs["list"], expected=truth))
@@ -1079,6 +1165,13 @@ def correspondence(ctx):
         "before the download the LOCAL destination is fresh or already holds an older copy of the same shape whose files are "
         "strictly longer / shorter / of equal length / empty / mixed (plus a bystander entry) compared with the remote ones. "
         "A case is non-trivial when its (shape, naming, configuration) is distinct. "
+        "WIDTH (directories pending at once in the breadth-first walks): besides the narrow shapes (at most 4 pending), deterministic "
+        "wide trees -- W300 (a directory with 300 sub-directories each holding a file, an empty directory and a file next to "
+        "them: 301 pending) and G20x20 (20 directories x 20 sub-directories each holding a file: 400 pending) -- are uploaded, "
+        "listed recursively, downloaded (fresh and over an older local copy) and removed against the MLSD server, and listed "
+        "recursively (relative from inside, absolute from outside) against the LIST-fallback server, where they are planted on the "
+        "server because every stat() there is a LIST of the parent directory (thorough: W1100, G34x34, G6x70 and all four "
+        "operations on W300 / G20x20 against the LIST-fallback server and on disk backends). "
         "SESSIONS: sequences of operations on ONE client (cd w | cd / | upload foo->x | upload foo->x/y write_into | "
         "mkdir x/y | remove x | upload foo->''): six named scenarios (same relative destination from two directories, "
         "create-remove-create, mkdir twice) x 3 sources x 2 servers, and every sequence of length 3 over the 7 operations "
@@ -1109,7 +1202,7 @@ def correspondence(ctx):
     tmp = TMP_ROOT / f"c09-{os.getpid()}"
     tmp.mkdir(exist_ok=True)
     try:
-        cases = witness_cases() + make_cases(ctx) + dots_cases()
+        cases = witness_cases() + make_cases(ctx) + dots_cases() + wide_cases(ctx)
         xcheck = check_cases(ctx, cases, tmp, use_model=use_model)
         sessions = seq_cases(ctx)
         xcheck = xcheck[:60] + check_sessions(ctx, sessions, tmp, use_model=use_model)
@@ -1134,7 +1227,7 @@ def search(ctx):
     tmp = TMP_ROOT / f"c09s-{os.getpid()}"
     tmp.mkdir(exist_ok=True)
     try:
-        cases = witness_cases() + make_cases(ctx) + dots_cases()
+        cases = witness_cases() + make_cases(ctx) + dots_cases() + wide_cases(ctx)
         check_cases(ctx, cases, tmp, use_model=False)
         check_sessions(ctx, seq_cases(ctx), tmp, use_model=False)
         ctx.count("sessions(oracle only)", len(cases))
@@ -1180,6 +1273,9 @@ def replay(ctx, data):
                               "ldst", "lwi", "pick")}
     case["dots"] = r.get("dots", False)
     case["lold"] = r.get("lold")
+    case["wide"] = r.get("wide", False)
+    if r.get("rwide"):
+        case["rwide"], case["paths"] = r["rwide"], r["paths"]
 
     def tup(s):
         return s if isinstance(s, str) else tuple(tup(x) for x in s)
